@@ -108,3 +108,23 @@ pub proof fn lemma_idom_trunc_trunc(w: nat, big: nat, x: int)
     lemma_trunc_congruent(w, x, t, q * k);
     lemma_trunc_range(w, t);
 }
+
+/// with hi - lo on the stride: v is on the stride counted from lo iff it is counted down from hi
+pub proof fn lemma_idom_stride_flip(st: u64, lo: int, hi: int, v: int)
+    requires on_stride(st, hi - lo)
+    ensures on_stride(st, hi - v) == on_stride(st, v - lo),
+{
+    if st > 0 {
+        let m = st as int;
+        if on_stride(st, hi - v) { lemma_divides_add(m, hi - lo, hi - v); assert((hi - lo) - (hi - v) == v - lo); }
+        if on_stride(st, v - lo) { lemma_divides_add(m, hi - lo, v - lo); assert((hi - lo) - (v - lo) == hi - v); }
+    }
+}
+
+/// two values on the stride: their difference is on the stride
+pub proof fn lemma_idom_stride_diff(st: u64, a: int, b: int)
+    requires on_stride(st, a), on_stride(st, b)
+    ensures on_stride(st, a - b), on_stride(st, a + b), on_stride(st, b - a),
+{
+    if st > 0 { lemma_divides_add(st as int, a, b); lemma_divides_add(st as int, b, a); }
+}
